@@ -165,9 +165,136 @@ theorem acceptor_before_irrelevant (t : Target) (a : AlpnKind) (dh ah ah' : List
   unfold connect
   rw [key ah ah' 0 h]
 
+/-! ### Connect variants -/
+
+/-- A dialer that holds a `Connection` has had all its after-handshake hooks called, in order, and
+all accepted; the same for the acceptor. (Plain `connect`; lifted to every variant below.) -/
+theorem connection_implies_after_hooks (t : Target) (a : AlpnKind) (dh ah : List Hook) :
+    (((connect t a dh ah).dres = .estab ∨ ∃ c, (connect t a dh ah).dres = .closed c) →
+      AllAfter dh ∧ (connect t a dh ah).dAfter = idxFrom 0 dh.length) ∧
+    ((connect t a dh ah).ares = .estab →
+      AllAfter ah ∧ (connect t a dh ah).aAfter = some (idxFrom 0 ah.length)) := by
+  unfold connect
+  by_cases hb : (runBefore 0 dh).2 = false
+  · simp [hb]
+  · rw [if_neg hb]
+    cases t with
+    | self => simp
+    | peer =>
+      simp only [reduceCtorEq, if_false]
+      cases a with
+      | empty => simp
+      | other => simp
+      | ok =>
+        simp only
+        cases hd : (runAfter 0 dh).2 with
+        | some c => simp
+        | none =>
+          have had : AllAfter dh := (runAfter_none_iff dh 0).mp hd
+          have hda := runAfter_all had 0
+          cases hc : (runAfter 0 ah).2 with
+          | some c => simp [had, hda]
+          | none =>
+            have haa : AllAfter ah := (runAfter_none_iff ah 0).mp hc
+            simp [had, hda, haa, runAfter_all haa 0]
+
+/-- **every_variant_runs_after_hooks** — for EVERY connect variant on either side (plain
+`connect`, `connect_with_opts`, `into_0rtt` handed back / accepted / rejected-then-1-RTT;
+`Accepting`, `Incoming`, `Accepting::into_0rtt`): the hook outcome is the one of the plain dial
+(all variants end in the same chain), and a side that obtains a `Connection` has had every one of
+its after-handshake hooks invoked, in order, all accepting — a rejecting hook on a side means that
+side never holds a `Connection`, whichever variant was used. -/
+theorem every_variant_runs_after_hooks (dv : DVariant) (av : AVariant) (t : Target) (a : AlpnKind)
+    (dh ah : List Hook) :
+    (connectV dv av t a dh ah).base = connect t a dh ah ∧
+    ((((connectV dv av t a dh ah).base.dres = .estab ∨ ∃ c, (connectV dv av t a dh ah).base.dres = .closed c) →
+      AllAfter dh ∧ (connectV dv av t a dh ah).base.dAfter = idxFrom 0 dh.length)) ∧
+    ((connectV dv av t a dh ah).base.ares = .estab →
+      AllAfter ah ∧ (connectV dv av t a dh ah).base.aAfter = some (idxFrom 0 ah.length)) ∧
+    (¬ AllAfter dh → (connectV dv av t a dh ah).base.dres ≠ .estab ∧
+      ∀ c, (connectV dv av t a dh ah).base.dres ≠ .closed c) ∧
+    (¬ AllAfter ah → (connectV dv av t a dh ah).base.ares ≠ .estab) := by
+  have h := connection_implies_after_hooks t a dh ah
+  refine ⟨rfl, h.1, h.2, ?_, ?_⟩
+  · intro hn
+    refine ⟨fun he => hn (h.1 (Or.inl he)).1, fun c hc => hn (h.1 (Or.inr ⟨c, hc⟩)).1⟩
+  · intro hn he; exact hn (h.2 he).1
+
+example : (connectV .zAccepted .zeroRtt .peer .ok [⟨true, none⟩] [⟨true, none⟩]).base.dres = .estab := by decide
+
+/-- **zero_rtt_data_before_hooks** — stated as the code allows it:
+(a) in the 0-RTT variants, once `connect_with_opts` succeeded (before-connect hooks, self check,
+    empty-name check — these DO come first), the dialer's application writes stream data before any
+    after-handshake hook has been invoked, whatever the after-handshake verdicts on either side are
+    — in particular also when the dial then ends `LocallyRejected` or closed by the acceptor's hook;
+(b) with accepted early data and an acceptor that uses `Accepting::into_0rtt`, the acceptor's
+    application reads that data before ITS hooks are invoked — even if one of them then rejects
+    (acceptor result `rejAfter`, the dialer sees the code);
+(c) in the variants without 0-RTT no application data moves before the hooks: nothing is written
+    early and nothing is read early;
+(d) a rejecting before-connect hook (or a self dial / empty name) prevents 0-RTT data as well. -/
+theorem zero_rtt_data_before_hooks (dv : DVariant) (av : AVariant) (t : Target) (a : AlpnKind)
+    (dh ah : List Hook) :
+    (dv.attempts0rtt = true → AllBefore dh → t = .peer → a = .ok →
+      (connectV dv av t a dh ah).dEarlyWrite = true) ∧
+    (dv = .zAccepted → av = .zeroRtt → AllBefore dh → AllAfter dh → t = .peer → a = .ok →
+      (connectV dv av t a dh ah).aEarly = .pre ∧
+      (¬ AllAfter ah → (connectV dv av t a dh ah).base.ares = .rejAfter)) ∧
+    (dv.attempts0rtt = false →
+      (connectV dv av t a dh ah).dEarlyWrite = false ∧ (connectV dv av t a dh ah).aEarly = .none) ∧
+    ((¬ AllBefore dh ∨ t = .self ∨ a = .empty) →
+      (connectV dv av t a dh ah).dEarlyWrite = false ∧ (connectV dv av t a dh ah).aEarly = .none ∧
+      (connectV dv av t a dh ah).z = .notAttempted) := by
+  refine ⟨?_, ?_, ?_, ?_⟩
+  · intro h0 hb ht ha
+    subst ht; subst ha
+    simp [connectV, gotConnecting, (runBefore_accept_iff dh 0).mpr hb, h0]
+  · intro hdv hav hb hda ht ha
+    subst hdv; subst hav; subst ht; subst ha
+    have hd := (runAfter_none_iff dh 0).mpr hda
+    refine ⟨by simp [connectV, gotConnecting, (runBefore_accept_iff dh 0).mpr hb, hd], ?_⟩
+    intro hna
+    obtain ⟨pre, x, post, c, he, hp, hx⟩ := split_first_after hna
+    have := (reject_after_closes_with_code dh ah pre post x c hb hp hx).2 hda he
+    exact this.2.1
+  · intro h0
+    cases dv <;> simp [DVariant.attempts0rtt] at h0 <;> simp [connectV, DVariant.attempts0rtt]
+  · intro h
+    have hgc : gotConnecting t a dh = false := by
+      unfold gotConnecting
+      rcases h with h | h | h
+      · have : (runBefore 0 dh).2 = false := by
+          cases hb : (runBefore 0 dh).2 with
+          | false => rfl
+          | true => exact absurd ((runBefore_accept_iff dh 0).mp hb) h
+        simp [this]
+      · subst h; simp
+      · subst h; simp
+    simp [connectV, hgc]
+
+example : (connectV .zAccepted .zeroRtt .peer .ok [⟨true, none⟩] [⟨true, some 7⟩]).aEarly = .pre ∧
+    (connectV .zAccepted .zeroRtt .peer .ok [⟨true, none⟩] [⟨true, some 7⟩]).base.ares = .rejAfter ∧
+    (connectV .zAccepted .zeroRtt .peer .ok [⟨true, none⟩] [⟨true, some 7⟩]).base.dres = .closed 7 := by decide
+
+/-- The 0-RTT status a dialer learns: only from a `handshake_completed()` that succeeded, i.e. only
+if all its after-handshake hooks accepted. -/
+theorem zstatus_known_only_after_hooks (dv : DVariant) (av : AVariant) (t : Target) (a : AlpnKind)
+    (dh ah : List Hook)
+    (h : (connectV dv av t a dh ah).z = .accepted ∨ (connectV dv av t a dh ah).z = .rejected) :
+    AllAfter dh := by
+  apply (runAfter_none_iff dh 0).mp
+  cases hd : (runAfter 0 dh).2 with
+  | none => rfl
+  | some c =>
+    exfalso
+    unfold connectV at h
+    by_cases hgc : gotConnecting t a dh = true
+    · cases dv <;> simp [hgc, hd] at h
+    · simp [hgc] at h
+
 /-- Order of the checks in the source the model relies on (regenerated on every run). -/
 theorem source_shape :
     Generated.C42.hooksBeforeSelfCheck = 1 ∧ Generated.C42.selfCheckBeforeAlpnCheck = 1 ∧
-    Generated.C42.afterRejectClosesWithCode = 1 := by decide
+    Generated.C42.afterRejectClosesWithCode = 1 ∧ Generated.C42.uncheckedConnCallSites = 0 := by decide
 
 end IrohModel.C42
